@@ -293,6 +293,22 @@ def r10_4(ctx, fx):
         for c in odf:
             ok = c.node not in fn.reach([fn.entry], avoid=[u.node for u in ups])
             ctx.ob("R10.4", "next/address-re-scored-before-on_dial_failure", ok, site=fn.site(c.node), cfg=fx.cfg)
+        # every batch of per-address errors a transport reports is scored before the event is interpreted by the state machine:
+        # the error loop (whose body re-scores) dominates on_open_failure / on_connection_opened
+        loops = []
+        for nx in fn.calls(r"Iterator>?::next$"):
+            sws = [sw for sw in fn.discr_switches() if sw[1][0] in fn.copies_of(nx.dest[0]) and len(sw[1]) == 1]
+            if not sws:
+                continue
+            body = fn.reach([m for m, l in fn.succs(sws[0][0]) if l in fn.variant_edges(sws[0], "Some")], avoid=[nx.node])
+            if any(u.node in body for u in ups):
+                loops.append(nx.node)
+        ctx.anchor("R10.4", "next: error loops that re-score", len(loops), 2, cfg=fx.cfg)
+        for meth in ("on_open_failure", "on_connection_opened"):
+            for c in fn.calls(r"TransportManager::%s$" % meth):
+                ok = bool(loops) and c.node not in fn.reach([fn.entry], avoid=loops)
+                ctx.ob("R10.4", "next/reported-errors-re-scored-before-%s" % meth, ok, site=fn.site(c.node), cfg=fx.cfg,
+                       detail="the (address, error) pairs of the transport event must be fed to update_address_on_dial_failure whatever the state machine answers")
         for i, u in enumerate(ups):
             rs = guards.rootstrs(fn, u.args[1])
             ctx.ob("R10.4", "next/re-score#%d-takes-the-address-from-the-transport-event" % i, fn.producer(u.args[1]) is not None and fn.producer(u.args[1]).matches(r"Multiaddr as std::clone::Clone>::clone$"), site=fn.site(u.node), cfg=fx.cfg, detail=str(sorted(rs))[:260])
